@@ -396,7 +396,7 @@ Definition op_in_scope (s : state) (o : op) : Prop :=
 
 Lemma sorted_post : forall c r, SortedS (fst r) -> SortedS (fst (post c r)).
 Proof.
-  intros c r H. unfold post. destruct (fx_xcache c); auto. simpl.
+  intros c r H. unfold post. simpl.
   unfold SortedS, inval_all. simpl. rewrite keys_map; auto. intro e. reflexivity.
 Qed.
 
